@@ -43,6 +43,8 @@ MUTANTS = [
     # C11: a process-wide scratch list, emptied in a finally (clean after every call, also after an interrupted one):
     # visible only when another call runs while a quoted scalar is being scanned (line-level pre-emption)
     ('M40', 'C11', 'scanner.py', "        chunks = []\n        start_mark = self.get_mark()\n        quote = self.peek()\n        self.forward()\n        chunks.extend(self.scan_flow_scalar_non_spaces(double, start_mark))\n        while self.peek() != quote:\n            chunks.extend(self.scan_flow_scalar_spaces(double, start_mark))\n            chunks.extend(self.scan_flow_scalar_non_spaces(double, start_mark))\n        self.forward()\n        end_mark = self.get_mark()\n        return ScalarToken(''.join(chunks), False, start_mark, end_mark,\n                style)\n", "        chunks = Scanner._flow_chunks      # one reusable scratch list for the whole process\n        del chunks[:]\n        try:\n            start_mark = self.get_mark()\n            quote = self.peek()\n            self.forward()\n            chunks.extend(self.scan_flow_scalar_non_spaces(double, start_mark))\n            while self.peek() != quote:\n                chunks.extend(self.scan_flow_scalar_spaces(double, start_mark))\n                chunks.extend(self.scan_flow_scalar_non_spaces(double, start_mark))\n            self.forward()\n            end_mark = self.get_mark()\n            return ScalarToken(''.join(chunks), False, start_mark, end_mark,\n                    style)\n        finally:\n            del chunks[:]\n\n    _flow_chunks = []\n"),
+    # C19: the callable of !!python/object/apply / python/object/new is caller-owned code: a 'friendlier' error replaces its exception
+    ('M41', 'C19', 'constructor.py', '        else:\n            return cls(*args, **kwds)\n', '        else:\n            try:\n                return cls(*args, **kwds)\n            except Exception as exc:\n                raise ConstructorError("while constructing a Python instance", node.start_mark,\n                        "cannot call %r: %s" % (cls, exc), node.start_mark)\n'),
 ]
 
 
